@@ -26,6 +26,8 @@ func init() {
 
 func runC13(c *Ctx) {
 	p := c.P
+	// shared rule: history/tree scanners stop only at the end of their input (rules_c05.go)
+	scannerVerdictRule(c, "R6")
 	fp := p.Fn("commands", "fsckPointer")
 	objs := p.Fn("commands", "doFsckObjects")
 	ptrs := p.Fn("commands", "doFsckPointers")
